@@ -41,6 +41,8 @@ def panel_spec(draw, max_geos=6, min_geos=1, max_dates=30, flat=False):
       'resp_int': draw(st.integers(0, 4)) == 0,
       # anti-phase geos (loading -1 on the common factor): negative correlations, group sums with a smaller spread than their parts
       'sign': [draw(st.sampled_from([1, 1, 1, 1, 1, -1])) for _ in range(n_geos)],
+      # geos that were larger in the first half of the history (shares over all dates != shares over the recent window)
+      'early': [draw(st.sampled_from([1, 1, 1, 1, 2, 4, 8])) for _ in range(n_geos)],
       # geos whose response is exactly constant over the last `len` dates (C01 only: legality does not depend on scores)
       'flat': ([[draw(st.integers(0, n_geos - 1)), draw(st.sampled_from([n_dates, n_test + 3, max(n_test + 3, n_dates // 2)]))]
                 for _ in range(draw(st.integers(1, 2)))] if (flat and draw(st.integers(0, 2)) == 0) else []),
